@@ -101,6 +101,7 @@ def w_enum(exe, modes, tokens, k, prefix_idx, opts, prop, sample_every=0):
     return part
 
 
+EMAIL_DOMAINS = [b"a.bc", b"[192.0.2.1]", b"[IPv6:2001:db8::1]", b"x-y.example.org", "почта.рф".encode(), "xn--p1ai.ею".encode()]
 SUBRANGE_SUFFIXES = [b".", b"..", b'"', b"a", b"\\", b" ", b"\n ", b"\xa9", b"\x80\x80\x80", b"@x", b"\xc3"]
 
 
@@ -145,14 +146,17 @@ def w_list(exe, modes, strings, opts, prop, src, with_email=False, subrange=Fals
                                              {"rc_nul_terminated": r1[i], "rc_subrange": r2[i], "source": src}))
     if with_email:
         # the high-level call on L@a.bc must reach the same decision (tld off), for |L| <= 64
-        lines = [driver.A_line(b + b"@a.bc", sections=1, modes=sum(1 << MODE_IDX[m] for m in modes), tlds=1)
-                 for b in strings]
+        # the local-part decision must not depend on the kind of domain that follows: rotate host name / literals / IDN
+        doms = EMAIL_DOMAINS if "6531" in modes else EMAIL_DOMAINS[:4]
+        adom = [doms[i % len(doms)] for i in range(len(strings))]
+        lines = [driver.A_line(b + b"@" + d, sections=1, modes=sum(1 << MODE_IDX[m] for m in modes), tlds=1)
+                 for b, d in zip(strings, adom)]
         recs, crashes = driver.run_lines_resilient(exe, lines)
         for idx, sig, err in crashes:
             b = strings[idx] if idx >= 0 else b""
-            part["viol"].append(("crash/%s" % sig, {"address": core.b2s(b + b"@a.bc")},
+            part["viol"].append(("crash/%s" % sig, {"address": core.b2s(b + b"@...")},
                                  {"stderr": err[-1500:], "source": src}))
-        for b, rec in zip(strings, recs):
+        for b, rec, d_ in zip(strings, recs, adom):
             if rec is None or len(b) == 0:
                 continue
             for mode in modes:
@@ -163,7 +167,7 @@ def w_list(exe, modes, strings, opts, prop, src, with_email=False, subrange=Fals
                 part["counters"]["email.%s.%s" % (mode, "accept" if h[0] else "reject")] += 1
                 if bool(h[0]) != exp:
                     part["viol"].append(("%s/email-decision/%s" % (mode, "accepts-invalid" if h[0] else "rejects-valid"),
-                                         {"mode": mode, "address": core.b2s(b + b"@a.bc")},
+                                         {"mode": mode, "address": core.b2s(b + b"@" + d_)},
                                          {"ret": h[0], "errcode": h[1], "reference_accepts": exp, "source": src}))
     part["distinct"] = len(set(strings))
     part["counters"]["%s.strings" % src] += len(strings)
